@@ -77,13 +77,15 @@ class workq:
         self._channel2count = {}
 
     def __getstate__(self):
-        return {"count": self.count, "jobs": list(self.id2job.values())}
+        return {"count": self.count, "jobs": list(self.id2job.values()), "channel2count": self._channel2count}
 
     def __setstate__(self, state):
         self.__init__()
 
         self.timeoutq = []
         self.count = state["count"]
+        # (the outcome counters of the finished jobs; absent in files saved by older versions)
+        self._channel2count = state.get("channel2count", {})
         for j in state["jobs"]:
             self.id2job[j.jobid] = j
             if not j.done:
